@@ -379,6 +379,146 @@ def persisted_sites(repo):
     return found
 
 
+# ------------------------------------------------------------------------------------------------
+# loaders: what the code does with a persisted value between parsing it and using it
+
+REJECT = re.compile(r"return\s+Err\b|\bbail!|Err\s*\(\s*anyhow|anyhow::bail")
+# conditions on a loaded value that are understood and harmless for C17 (none on the pinned tree); text -> reason
+UNDERSTOOD_CONDITIONS = {}
+
+
+def fn_body_span(src, pos):
+    """(start, end) of the body of the innermost fn starting before pos"""
+    best = None
+    for m in re.finditer(r"\bfn\s+(\w+)\s*(?:<[^{;]*?>)?\s*\(", src[:pos]):
+        best = m
+    if best is None:
+        return 0, len(src)
+    i = src.find("{", best.end())
+    depth, j = 1, i + 1
+    while depth and j < len(src):
+        depth += {"{": 1, "}": -1}.get(src[j], 0)
+        j += 1
+    return i + 1, j - 1
+
+
+def block_after(src, open_brace):
+    depth, j = 1, open_brace + 1
+    while depth and j < len(src):
+        depth += {"{": 1, "}": -1}.get(src[j], 0)
+        j += 1
+    return src[open_brace + 1:j - 1]
+
+
+def scope_after(src, start, limit):
+    """text from `start` to the end of the block that `start` is in (the scope of a `let` made just before)"""
+    depth, j = 0, start
+    while j < limit:
+        c = src[j]
+        if c == "{":
+            depth += 1
+        elif c == "}":
+            depth -= 1
+            if depth < 0:
+                break
+        j += 1
+    return src[start:j]
+
+
+def conditions_on(region, names):
+    """`if COND { … reject … }` and `ensure!(COND, …)` in `region` whose COND mentions one of `names`
+    (or a variable bound by a `let` whose initialiser mentions one of them)"""
+    names = set(names)
+    for m in re.finditer(r"\blet\s+(?:mut\s+)?(\w+)\s*(?::[^=;]+)?=\s*([^;]*);", region):
+        init = re.sub(r'"(?:[^"\\]|\\.)*"', '""', m.group(2))
+        if any(re.search(r"\b" + re.escape(n) + r"\b", init) for n in names):
+            names.add(m.group(1))
+    pat = re.compile("|".join(r"\b" + re.escape(n) + r"\b" for n in sorted(names)))
+    out = []
+    for m in re.finditer(r"\bif\s+((?:[^{};]|\{[^{}]*\})*?)\s*\{", region):
+        cond = re.sub(r"\s+", " ", m.group(1)).strip()
+        if cond.startswith("let "):
+            continue
+        if pat.search(cond) and REJECT.search(block_after(region, m.end() - 1)):
+            out.append(cond)
+    for m in re.finditer(r"\bensure!\s*\(", region):
+        args = call_args(region, m.end() - 1)
+        cond = re.sub(r"\s+", " ", split_top(args)[0]) if args.strip() else ""
+        if pat.search(cond):
+            out.append("ensure!(" + cond + ")")
+    return out
+
+
+def loader_facts(repo, sites=None):
+    """For every place a Plan / Vec<HistoryEntry> is parsed from disk: the variable it is bound to and every
+    rejection (`if … { return Err / bail! }`, `ensure!`) that depends on the loaded value, in the parsing function
+    and — when that function hands the value on (a loader helper) — in its callers.
+    A loader is *plain* if there is none: then loading is exactly `serde_json::from_str/from_reader` of the
+    modelled type, which is what `Serde.de` models."""
+    facts = []
+    srcs = {}
+
+    def source(rel):
+        if rel not in srcs:
+            srcs[rel] = non_test_source(os.path.join(repo, rel))
+        return srcs[rel]
+    all_rs = []
+    for top in ("renamify-core/src", "renamify-cli/src"):
+        for dp, dn, fn in os.walk(os.path.join(repo, top)):
+            dn.sort()
+            all_rs += [os.path.relpath(os.path.join(dp, f), repo) for f in sorted(fn) if f.endswith(".rs")]
+    for rel in all_rs:
+        src = source(rel)
+        for m in SERDE_CALL.finditer(src):
+            kind, ty = classify_call(rel, src, m)
+            if kind != "read":
+                continue
+            fname, sig = enclosing_fn(src, m.start())
+            b0, b1 = fn_body_span(src, m.start())
+            stmt_start = max(src.rfind(";", 0, m.start()), src.rfind("{", 0, m.start()), src.rfind("}", 0, m.start())) + 1
+            head = src[stmt_start:m.start()]
+            let = re.search(r"let\s+(?:mut\s+)?(\w+)\s*(?::[^=]+)?=\s*$", head)
+            if let:
+                var, shape = let.group(1), "let"
+            elif re.search(r"match\s*$", head):
+                arm = re.search(r"Ok\s*\(\s*(\w+)\s*\)", src[m.end():m.end() + 400])
+                var, shape = (arm.group(1) if arm else "_"), "match"
+            else:
+                raise SchemaError(f"serde_schema: {rel}: fn {fname}: the value parsed by serde_json::{m.group(1)} is neither "
+                                  "bound by `let` nor matched: loader shape not understood")
+            stmt_end = src.find(";", m.end())
+            region = scope_after(src, stmt_end + 1 if stmt_end >= 0 else m.end(), b1)
+            conds = [(rel, fname, c) for c in conditions_on(region, [var])]
+            ret = re.search(r"->\s*(.+)$", sig, re.S)
+            helper = bool(ret and re.search(r"\bPlan\b|\bSelf\b|\bHistory\b", ret.group(1)))
+            if helper and fname not in ("new",):
+                # callers that bind the helper's result: conditions on it there count as well
+                for rel2 in all_rs:
+                    src2 = source(rel2)
+                    for c in re.finditer(r"let\s+(\(?[^=;]*?\)?)\s*=\s*(?:[\w:]+::)?" + re.escape(fname) + r"\s*\(", src2):
+                        cfn, _ = enclosing_fn(src2, c.start())
+                        if cfn == fname:
+                            continue
+                        names = [n for n in re.findall(r"\b([a-z_]\w*)\b", c.group(1)) if n not in ("mut", "_")]
+                        if not names:
+                            continue
+                        c0, c1 = fn_body_span(src2, c.start())
+                        after = scope_after(src2, src2.find(";", c.end()) + 1, c1)
+                        conds += [(rel2, cfn, x) for x in conditions_on(after, names)]
+            facts.append({"file": rel, "fn": fname, "api": m.group(1), "type": ty, "var": var, "shape": shape,
+                          "helper": helper, "conditions": conds})
+    return facts
+
+
+def loaders_plain(facts):
+    bad = []
+    for f in facts:
+        for rel, fn, cond in f["conditions"]:
+            if cond not in UNDERSTOOD_CONDITIONS and (rel, fn, cond) not in bad:
+                bad.append((rel, fn, cond))
+    return bad
+
+
 def extract(repo=None):
     repo = repo or common.REPO
     known = set(SOURCES)
@@ -543,6 +683,23 @@ def render_verdict(schema):
                 + ", ".join(f"({blit(a)}, {blit(b)})" for a, b in off) + "]"
                 + "  -- " + (", ".join(f"{a}.{b}" for a, b in off) or "none"),
                 f"theorem {lname}Offending_eq : offending {LEAN_NAME[root]} = {lname}Offending := by decide", ""]
+    facts = loader_facts(common.REPO)
+    bad = loaders_plain(facts)
+
+    def q(x):
+        return '"' + x.replace("\\", "\\\\").replace('"', '\\"') + '"'
+    out += ["/-- every place a persisted value is parsed from disk: file, function, call, type -/",
+            "def loaderSites : List String := ["]
+    out += ["  " + q(f"{f['file']}: fn {f['fn']}: serde_json::{f['api']} -> {f['type']}") + ("," if i + 1 < len(facts) else "")
+            for i, f in enumerate(facts)]
+    out += ["]", "",
+            "/-- rejections that depend on the loaded value, found after the parse (in the parsing function or the callers of a",
+            "    loader helper): acceptance conditions beyond `serde_json::from_str` of the modelled type -/",
+            "def loaderConditions : List String := [" + ", ".join(q(f"{rel}: fn {fn}: if {c}") for rel, fn, c in bad) + "]", "",
+            f"def loadersPlain : Bool := {'true' if not bad else 'false'}",
+            "theorem loadersPlain_eq : loaderConditions.isEmpty = loadersPlain := by decide",
+            *(["theorem loadersPlain_is_true : loadersPlain = true := rfl"] if not bad else
+              ["-- no loadersPlain_is_true: a loader refuses values that parse (see loaderConditions)"]), ""]
     out += ["end Gen", ""]
     return "\n".join(out)
 
